@@ -18,6 +18,12 @@ CHECKS = {
  "C16": ("bounded-exhaustive enumeration of path pairs + seeded random deep pairs (proptest), round-trip oracle",
          "All 14 641 ordered pairs of clean absolute paths (<=4 components, 3 names) and random deeper/multi-byte pairs: result shape, '..' count and clean(base/result)==path.",
          "ref_clean", "4 C16"),
+ "C17": ("generated environments x grammar-generated templates, one child process per environment, vs a reference expansion (differential)",
+         "HOME/V1/V2 each in 6 states (216 environments; quick: 40) x error-shape table + seeded grammar templates; each environment is evaluated in its own env_clear()ed child process and compared with a reference expansion written from the statement (component-level; textual and PathBuf::push readings admitted).",
+         "ref_expand (harness/src/refpath.rs); templates outside the documented grammar only have to not panic", "4 C17"),
+ "C18": ("cross-product of environment configurations, one child process each, vs reference lookup functions written from the XDG rules",
+         "Getter cross-product (60 750 configurations in thorough, seeded 320 in quick), vfs.config_dir over every subset of candidate directories containing the file on Memfs and on a tmpfs Stdfs sandbox, getrids over SUDO_UID x SUDO_GID x (uid,gid).",
+         "reference functions in harness/src/props/c18.rs; std::fs as the on-disk observer; admitted sets for set-but-empty variables", "4 C18"),
  "C19": ("bounded-exhaustive enumeration (lengths x index pairs, short strings, small defer programs) + seeded random (proptest) vs plain definitions",
          "slice/drop for all lengths 0..=8 x indices -10..=10 on three iterator sources, the simple adaptors, all short strings over a multi-byte alphabet, every small defer program (fallthrough/return/panic, nesting <=3) run with real defer guards under catch_unwind.",
          "Vec/str std semantics; the interpreter's own model of scope exit order", "4 C19"),
